@@ -1,4 +1,5 @@
 import Driver.Util
+import Driver.Wf
 import Driver.OpsRpu
 import DoviModel.Model.Ops
 import DoviModel.Model.Json
@@ -75,6 +76,16 @@ def run : List String → String
           | .error => "werr"
           | .panic => "wpanic"
         s!"ok {w} {arr}"
+  | ["rpu.opswf", h, ops] =>
+    -- model-only: does the structure reached by the edit sequence meet the hypothesis of C03.write_parse_sound,
+    -- and (as the theorem then says) does the written RPU parse back to it?
+    match parseRpuEntry (unhex h) with
+    | .error => "err"
+    | .panic => "panic"
+    | .ok r =>
+      let (i, ok, cur, _) := runOps r (if ops == "-" then [] else ops.splitOn ";")
+      if !ok then s!"operr {i}"
+      else Driver.wfLine cur
   | _ => "bad-op"
 
 end Driver.EditOps
